@@ -405,8 +405,11 @@ fn respawn_share(prop: usize, seed: u64, fi: bool, from: u64, to: u64, stride: u
     let mut guard = 0;
     while from < to {
         guard += 1;
-        if guard > 200 {
-            return Err("too many worker deaths in one share".into());
+        if guard > 3 {
+            // the library dies again and again: the deaths recorded so far are reported as violations; the
+            // rest of this share is abandoned rather than respawned thousands of times
+            *m.counters.entry("share_abandoned_after_repeated_worker_deaths".into()).or_insert(0) += 1;
+            return Ok(());
         }
         let out = Command::new(exe())
             .args([
@@ -520,6 +523,11 @@ fn cmd_check(args: &[String]) -> i32 {
         Ok(false) => {
             eprintln!("HARNESS ERROR: determinism audit failed: event-log digests differ between two executions");
             return 2;
+        }
+        Err(e) if e == "WORKER_DIED" => {
+            // a worker process died during the audit runs (abort or panic inside a library call): that is
+            // not a statement about determinism; the batch below attributes the death to a run and a step
+            println!("determinism audit inconclusive: a worker process died; the batch will attribute it");
         }
         Err(e) => {
             eprintln!("HARNESS ERROR: determinism audit could not run: {}", e);
@@ -719,6 +727,12 @@ fn cmd_check(args: &[String]) -> i32 {
             }
         }
     }
+    // each run that died inside a library call is one (failed) oracle evaluation; each distinct abort
+    // signature one distinct non-trivial case
+    m.evals += m.crashes.len() as u64;
+    for sg in crash_sigs.iter() {
+        distinct.insert(rng::fp64(sg.as_bytes()));
+    }
     // 5. evidence
     let wall = t0.elapsed().as_secs_f64();
     let ev = evidence_json(&pid_s, prop, tier, seed, &pm, &m, distinct.len() as u64, digests.len() as u64, distinct_keys, wall, audit_runs, &known_hit, &reported, ff, fi);
@@ -749,7 +763,7 @@ fn cmd_check(args: &[String]) -> i32 {
         wall,
         if exit == 0 { "held on everything explored" } else { "VIOLATION" }
     );
-    if m.evals == 0 || distinct.len() < 2 {
+    if exit == 0 && (m.evals == 0 || distinct.len() < 2) {
         eprintln!("HARNESS ERROR: the batch evaluated nothing (evaluations={}, distinct={})", m.evals, distinct.len());
         return 2;
     }
@@ -777,6 +791,9 @@ fn determinism_audit(prop: usize, seed: u64, n: u64, ja: u64, jb: u64) -> Result
             }
             for k in kids {
                 let out = k.wait_with_output().map_err(|e| e.to_string())?;
+                if !out.status.success() {
+                    return Err("WORKER_DIED".into());
+                }
                 for l in String::from_utf8_lossy(&out.stdout).lines() {
                     if let Some(r) = l.strip_prefix("E ") {
                         let mut it = r.split(' ');
